@@ -66,3 +66,15 @@ KERNELS = {
         dict(name="bl_in_skip", file=ASYNC, func="_AsyncConnectionWrapper.push_expected_blocking", loc=("while_if", 0, 5), result="Bool", params=["t", "t_low", "t_high", "skip"], props=["C02", "C03"]),
     ],
 }
+
+
+# kernel specifications contributed per property live in harness/kernels_<id>.py (each defines KERNELS = {...})
+import glob as _glob
+import importlib as _importlib
+import os as _os
+
+for _f in sorted(_glob.glob(_os.path.join(_os.path.dirname(_os.path.abspath(__file__)), "kernels_*.py"))):
+    _m = _importlib.import_module(_os.path.basename(_f)[:-3])
+    for _k, _v in _m.KERNELS.items():
+        assert _k not in KERNELS, f"duplicate kernel module {_k}"
+        KERNELS[_k] = _v
